@@ -1900,3 +1900,8 @@ fn test_remove_has_instance_service() {
     assert!(naming.remove_empty_service(service_key.clone()).is_ok());
     assert!(naming.namespace_index.service_size == 0);
 }
+
+// verification hook (inert unless cfg(kani) or cfg(rnacos_verif)); see /verif/DESIGN.md
+#[cfg(any(kani, rnacos_verif))]
+#[path = "/verif/harness/c11_core_priv.rs"]
+pub(crate) mod verif_priv;
